@@ -673,6 +673,17 @@ mnemo_sse_cmp = ["cmpps", "cmppd", "cmpsd", "cmpss"]
 mnemo_sse_cmp_predicate = ["eq", "lt", "le", "unord", "neq", "nlt", "nle", "ord"]
 
 
+def att_sse_cmp_predicate(i):
+    # cmpps/cmppd/cmpsd/cmpss have a pseudo-op (cmpeqps, cmpltps, ...) only
+    # for the predicates 0..7; any other imm8 stays an explicit operand.
+    return (
+        i.mnemonic.lower() in mnemo_sse_cmp
+        and len(i.operands) == 3
+        and i.operands[2]._is_cst
+        and int(i.operands[2]) < len(mnemo_sse_cmp_predicate)
+    )
+
+
 def att_mnemo_generic(i, s, m):
     if i.mnemonic in ["SETcc", "Jcc"]:
         pass
@@ -681,7 +692,8 @@ def att_mnemo_generic(i, s, m):
         # The 'movsd' with two arguments is the SSE instruction
         m = "movsl"
     elif m in mnemo_sse_cmp and len(i.operands) == 3:
-        m = m[0:3] + mnemo_sse_cmp_predicate[int(i.operands[2])] + m[3:5]
+        if att_sse_cmp_predicate(i):
+            m = m[0:3] + mnemo_sse_cmp_predicate[int(i.operands[2])] + m[3:5]
     elif m in att_mnemo_correspondance.values():
         m = sorted(
             [key for key, value in att_mnemo_correspondance.items() if m == value]
@@ -857,7 +869,7 @@ def att_opers(i, operands=None):
 
             sys.stderr.write("TODO %s %s\n" % (op.__class__, op))
         s.append((Token.Literal, ", "))
-    if i.mnemonic.lower() in mnemo_sse_cmp and len(i.operands) == 3:
+    if att_sse_cmp_predicate(i):
         s = s[2:]
     if len(s) > 0:
         s.pop()
